@@ -23,7 +23,7 @@ VBITS = {f32bits(v): k for k, v in VALS.items()}
 
 def tools_dir():
     build_harness()
-    d = os.path.join(WORK, "clibin" + ("_alt" if ALT_REPO else ""))
+    d = os.path.join(WORK, "clibin" + ("_alt" if ALT_REPO else "") + ("_cov" if COV else ""))
     os.makedirs(d, exist_ok=True)
     real = os.path.join(os.path.dirname(VH), "bigtools")
     for n in TOOLS + list(MIXED.values()) + ["bigtools", "BigTools"]:
